@@ -223,6 +223,11 @@ func c13NewEng(env *core.Env, c *C13Case) *c13Eng {
 	} else {
 		e.dm = disk.NewDiskManagerImpl(e.path)
 	}
+	if c.Mode == "go" && c.Flush && c.GoSeed%3 != 0 {
+		// slow page writes (0.2 - 2 ms): the flush calls stay inside their write loops long enough for other users to evict,
+		// deallocate and re-use the pages and buffers they work on
+		e.dm = &c13SlowDisk{DiskManager: e.dm, delay: time.Duration(200+c.GoSeed%1800) * time.Microsecond}
+	}
 	lm := recovery.NewLogManager(&e.dm)
 	e.bpm = buffer.NewBufferPoolManager(uint32(c.Pool), e.dm, lm)
 	func() {
@@ -236,6 +241,19 @@ func c13NewEng(env *core.Env, c *C13Case) *c13Eng {
 		}
 	}()
 	return e
+}
+
+// c13SlowDisk delays every page write (a slow device).
+type c13SlowDisk struct {
+	disk.DiskManager
+	delay time.Duration
+}
+
+func (d *c13SlowDisk) WritePage(id types.PageID, b []byte) error {
+	time.Sleep(d.delay / 2)
+	err := d.DiskManager.WritePage(id, b)
+	time.Sleep(d.delay / 2)
+	return err
 }
 
 func (e *c13Eng) close() {
